@@ -61,7 +61,9 @@ pub fn title_front_matter(input: ParseString) -> ParseResult<TitleFrontMatter> {
   let mut input = input;
   let mut front_matter = TitleFrontMatter::default();
 
+  #[cfg(mech_verif)] let mut verif_guard = crate::verif::LoopGuard::new("title_front_matter");
   while many1(equal)(input.clone()).is_err() {
+    #[cfg(mech_verif)] verif_guard.tick(input.cursor);
     let (next_input, key) = identifier(input.clone())?;
     let (next_input, _) = many0(space_tab)(next_input)?;
     let (next_input, _) = colon(next_input)?;
@@ -516,7 +518,9 @@ pub fn check_list_item(input: ParseString) -> ParseResult<(bool,Paragraph)> {
 
 pub fn check_list(mut input: ParseString, level: usize) -> ParseResult<MDList> {
   let mut items = vec![];
+  #[cfg(mech_verif)] let mut verif_guard = crate::verif::LoopGuard::new("check_list");
   loop {
+    #[cfg(mech_verif)] verif_guard.tick(input.cursor);
     // Calculate current line indent
     let mut indent = 0;
     let mut current = input.peek(indent);
@@ -571,7 +575,9 @@ pub fn check_list(mut input: ParseString, level: usize) -> ParseResult<MDList> {
 // unordered_list := +list_item, ?new_line, *whitespace ;
 pub fn unordered_list(mut input: ParseString, level: usize) -> ParseResult<MDList> {
   let mut items = vec![];
+  #[cfg(mech_verif)] let mut verif_guard = crate::verif::LoopGuard::new("unordered_list");
   loop {
+    #[cfg(mech_verif)] verif_guard.tick(input.cursor);
     let mut indent = 0;
     let mut current = input.peek(indent);
     while current == Some(" ") || current == Some("\t") {
@@ -622,7 +628,9 @@ pub fn unordered_list(mut input: ParseString, level: usize) -> ParseResult<MDLis
 // ordered-list := +ordered-list-item, ?new-line, *whitespace ;
 pub fn ordered_list(mut input: ParseString, level: usize) -> ParseResult<MDList> {
   let mut items = vec![];
+  #[cfg(mech_verif)] let mut verif_guard = crate::verif::LoopGuard::new("ordered_list");
   loop {
+    #[cfg(mech_verif)] verif_guard.tick(input.cursor);
     let mut indent = 0;
     let mut current = input.peek(indent);
     while current == Some(" ") || current == Some("\t") {
@@ -1021,8 +1029,10 @@ pub fn section(input: ParseString) -> ParseResult<Section> {
   let mut elements = vec![];
 
   let mut new_input = input.clone();
+  #[cfg(mech_verif)] let mut verif_guard = crate::verif::LoopGuard::new("section");
 
   loop {
+    #[cfg(mech_verif)] verif_guard.tick(new_input.cursor);
     // Stop if EOF reached
     if new_input.cursor >= new_input.graphemes.len() {
       //println!("EOF reached while parsing section");
@@ -1098,7 +1108,9 @@ pub fn body(input: ParseString) -> ParseResult<Body> {
   let (mut input, _) = whitespace0(input)?;
   let mut sections = vec![];
   let mut new_input = input.clone();
+  #[cfg(mech_verif)] let mut verif_guard = crate::verif::LoopGuard::new("body");
   loop {
+    #[cfg(mech_verif)] verif_guard.tick(new_input.cursor);
     if new_input.cursor >= new_input.graphemes.len() {
       break;
     }
